@@ -113,6 +113,14 @@ func (db *SingleBucketBackend) ListBucket(bucket string, prefix *gofakes3.Prefix
 }
 
 func (db *SingleBucketBackend) getBucketWithFilePrefixLocked(bucket string, prefixPath, prefixPart string) (*gofakes3.ObjectList, error) {
+	// No key can start with a prefix whose directory part does not exist (or
+	// is a file); that is an empty listing, not an error:
+	if isDir, err := afero.IsDir(db.fs, filepath.FromSlash(prefixPath)); err != nil && !os.IsNotExist(err) {
+		return nil, err
+	} else if !isDir && prefixPath != "" {
+		return gofakes3.NewObjectList(), nil
+	}
+
 	dirEntries, err := afero.ReadDir(db.fs, filepath.FromSlash(prefixPath))
 	if err != nil {
 		return nil, err
